@@ -30,7 +30,88 @@ def digest_run(engine, prop, seed, cases, jobs, per_batch, tier="quick"):
     return harness.digest(sorted(digs)), dict(digs)
 
 
+def _sq(x):
+    return x * x
+
+
+def _boom(x):
+    if x == 3:
+        raise ValueError("boom %d" % x)
+    return x
+
+
+_STATE = {"n": 0}
+
+
+def _stateful(x):
+    _STATE["n"] += 1
+    return (x, _STATE["n"])
+
+
+def simpool_selftest():
+    """SimPool must behave like multiprocessing.Pool for every API it offers, under every dispatcher mode."""
+    from . import seams
+
+    problems = []
+    for mode in ("fifo", "random", "skewed", "stalled"):
+        for seed in range(3):
+            seams.configure_pool(mode, [seed * 7 + k for k in range(5)], seed)
+            with seams.SimPool(processes=3) as pool:
+                rs = [pool.apply_async(_sq, (i,)) for i in range(9)]
+                got = [r.get() for r in rs]
+                if got != [i * i for i in range(9)]:
+                    problems.append("apply_async/get %s/%d: %r" % (mode, seed, got))
+                if pool.map(_sq, range(11)) != [i * i for i in range(11)]:
+                    problems.append("map %s/%d" % (mode, seed))
+                if pool.starmap(pow, [(2, 3), (3, 2)]) != [8, 9]:
+                    problems.append("starmap %s/%d" % (mode, seed))
+                if list(pool.imap(_sq, range(7))) != [i * i for i in range(7)]:
+                    problems.append("imap %s/%d" % (mode, seed))
+                if sorted(pool.imap_unordered(_sq, range(7))) != [i * i for i in range(7)]:
+                    problems.append("imap_unordered %s/%d" % (mode, seed))
+                r = pool.apply_async(_boom, (3,))
+                try:
+                    r.get()
+                    problems.append("exception not propagated %s/%d" % (mode, seed))
+                except ValueError:
+                    pass
+                seen = []
+                pool.apply_async(_sq, (5,), callback=seen.append).wait()
+                if seen != [25]:
+                    problems.append("callback %s/%d" % (mode, seed))
+                # worker-local state survives from job to job (as in the real pool)
+                counts = [c for _, c in pool.map(_stateful, range(12), chunksize=1)]
+                if max(counts) < 2:
+                    problems.append("worker state not kept %s/%d" % (mode, seed))
+            # same script => same dispatch and delivery orders
+            orders = []
+            for _ in range(2):
+                seams.configure_pool(mode, [seed * 7 + k for k in range(5)], seed)
+                with seams.SimPool(processes=3) as pool:
+                    [r.get() for r in [pool.apply_async(_sq, (i,)) for i in range(8)]]
+                    orders.append((tuple(pool._dispatch_order), tuple(pool._delivery_order)))
+            if orders[0] != orders[1]:
+                problems.append("schedule not repeatable %s/%d: %r" % (mode, seed, orders))
+    fired = {}
+    for mode in ("random", "skewed", "stalled"):
+        seams.configure_pool(mode, [], 11)
+        with seams.SimPool(processes=3) as pool:
+            pool.map(_sq, range(30), chunksize=1)
+        for k in ("reorder-dispatch", "reorder-delivery", "skewed-load", "stalled-worker"):
+            fired[k] = fired.get(k, 0) + seams.POOL_STATS[k]
+    for k, n in fired.items():
+        if n == 0:
+            problems.append("fault kind %s never fired in the pool self-test" % k)
+    return problems
+
+
 def main(args):
+    if not os.environ.get("VERIF_SELFTEST_CHILD"):
+        probs = simpool_selftest()
+        if probs:
+            print("SELFTEST FAIL SimPool: " + "; ".join(probs[:5]))
+            return 2
+        print("selftest SimPool: API equivalence under fifo/random/skewed/stalled x 3 scripts, schedules repeat, every pool fault kind fires")
     import importlib
     from vcheck_engines import ENGINES  # noqa
 
